@@ -1,5 +1,6 @@
 from __future__ import annotations
 
+import re
 from collections import defaultdict
 from typing import NamedTuple
 from typing import TypeVar
@@ -12,6 +13,11 @@ from . import ode_component
 from . import units
 
 T = TypeVar("T", atoms.State, atoms.Parameter)
+
+
+# What a unit annotation looks like: names with optional integer powers, joined by * or /
+_UNIT_FACTOR = r"[^\W\d]\w*(\s*\*\*\s*-?\d+)?"
+UNIT_EXPR = re.compile(rf"^\s*(1\s*/\s*)?{_UNIT_FACTOR}(\s*[*/]\s*{_UNIT_FACTOR})*\s*$|^\s*1\s*$")
 
 
 class LarkODE(NamedTuple):
@@ -56,10 +62,14 @@ def get_unit_and_comment_from_assignment(
         potential_unit = s.children[2]
         # If it's a comment, it's not a unit
         if isinstance(potential_unit, atoms.Comment):
+            if not UNIT_EXPR.match(potential_unit.text):
+                # Free text: never hand it to the unit registry, which evaluates
+                # arithmetic in its argument ('1/0', '9**9**9', unbalanced quotes, ...)
+                return None, atoms.Comment(potential_unit.text)
             try:
                 # Try to parse the unit
                 unit = units.ureg(potential_unit.text)
-            except (units.pint.UndefinedUnitError, AttributeError):
+            except Exception:
                 # Not a proper unit so it's a comment
                 return None, atoms.Comment(potential_unit.text)
             else:
